@@ -225,3 +225,144 @@ Proof.
           destruct (nth_error (py_sorted_rev f_lt inds) (i + 1)) as [x|]; [|reflexivity];
           unfold has_val0, val0, val; destruct (values w x); reflexivity ].
 Qed.
+
+(* ------------------------------------------------------------------ selDoubleTournament *)
+(* one round of the two nested tournaments of the model *)
+Definition fit_round (fs : nat) (select : nat -> M (list ind)) : M ind :=
+  aspirants <- select fs ;; best_of aspirants.
+
+Definition size_round (psize : Q) (select : nat -> M (list ind)) : M ind :=
+  pr <- select 2 ;;
+  match pr with
+  | [i1; i2] =>
+      let '(a, b, prob) :=
+        if Nat.ltb (size i2) (size i1) then (i2, i1, psize / 2)%Q
+        else if Nat.eqb (size i1) (size i2) then (i1, i2, 1 # 2)
+        else (i1, i2, psize / 2)%Q in
+      u <- random01 ;; ret (if Qltb u prob then a else b)
+  | _ => raise ValueError
+  end.
+
+Lemma fitTournament_rounds fs select k ds : fitTournament fs select k ds = repeatM k (fit_round fs select) ds.
+Proof. reflexivity. Qed.
+
+Lemma sizeTournament_rounds ps select k ds : sizeTournament ps select k ds = repeatM k (size_round ps select) ds.
+Proof. reflexivity. Qed.
+
+(* `chosen = []; for i in range(k): <one round>; chosen.append(..)`; return chosen` *)
+Lemma rounds_loop {B} (round : M B) k (body : nat -> list B -> M (list B)) ds :
+  (forall i acc d, body i acc d = (y <- round ;; ret (acc ++ [y])) d) ->
+  (acc <- for_each (seq 0 k) body [] ;; ret acc) ds = repeatM k round ds.
+Proof.
+  intro H. rewrite for_each_append_nil with (f := fun _ : nat => round); [apply mapM_const_seq|].
+  intros; apply H.
+Qed.
+
+(* the generated round bodies: the first statement is the call of `select` (tac proves that it is the
+   model's selection function), the rest is straight-line code *)
+Ltac round_tail :=
+  intros ? ?; unfold unpack2, py_maxM, best_of, bind, ret, raise;
+  repeat (cbv beta zeta;
+          match goal with
+          | |- ?x = ?x => reflexivity
+          | |- context [match ?l with [] => _ | _ :: _ => _ end] => destruct l
+          | |- context [match py_max ?g ?l with Some _ => _ | None => _ end] => destruct (py_max g l)
+          | |- context [if ?c then _ else _] => destruct c
+          | |- context [match random01 ?d with Ok _ _ => _ | Raise _ => _ | Mismatch => _ end] => destruct (random01 d)
+          end).
+
+Ltac round_with tac :=
+  intros ? ? ?; unfold fit_round, size_round; refine (eq_trans _ (eq_sym (bind_assoc _ _ _ _)));
+  apply bind_ext2; [tac | round_tail].
+
+Lemma gen_selDoubleTournament_eq inds k fs ps ff ds :
+  gen_selDoubleTournament inds k fs ps ff ds = selDoubleTournament inds k fs ps ff ds.
+Proof.
+  first [ reflexivity
+        | unfold gen_selDoubleTournament, selDoubleTournament;
+          destruct (negb (Qle_bool 1 ps && Qle_bool ps 2)); [reflexivity|];
+          destruct ff; cbv beta zeta;
+          [ rewrite sizeTournament_rounds; apply rounds_loop;
+            round_with ltac:(rewrite fitTournament_rounds; apply rounds_loop; round_with ltac:(apply gen_selRandom_eq))
+          | rewrite fitTournament_rounds; apply rounds_loop;
+            round_with ltac:(rewrite sizeTournament_rounds; apply rounds_loop; round_with ltac:(apply gen_selRandom_eq)) ] ].
+Qed.
+
+(* ------------------------------------------------------------------ selTournamentDCD *)
+(* the four tournaments of one group of the model *)
+Definition dcd_group (l1 l2 : list ind) (i : nat) : M (list ind) :=
+  a <- tourn_at l1 i (i + 1) ;; b <- tourn_at l1 (i + 2) (i + 3) ;;
+  c <- tourn_at l2 i (i + 1) ;; d <- tourn_at l2 (i + 2) (i + 3) ;; ret [a; b; c; d].
+
+Lemma dcd_loop_groups l1 l2 iters : forall i ds,
+  dcd_loop iters i l1 l2 ds =
+  (gs <- mapM (dcd_group l1 l2) (map (fun j => i + j * 4) (seq 0 iters)) ;; ret (flat_map (fun g => g) gs)) ds.
+Proof.
+  induction iters as [|it IH]; intros i ds; [reflexivity|].
+  cbn [dcd_loop seq map mapM]. rewrite <- seq_shift, map_map.
+  replace (i + 0 * 4) with i by lia.
+  unfold dcd_group at 1. unfold bind, ret.
+  destruct (tourn_at l1 i (i + 1) ds) as [a d1| |]; try reflexivity.
+  destruct (tourn_at l1 (i + 2) (i + 3) d1) as [b d2| |]; try reflexivity.
+  destruct (tourn_at l2 i (i + 1) d2) as [c d3| |]; try reflexivity.
+  destruct (tourn_at l2 (i + 2) (i + 3) d3) as [d d4| |]; try reflexivity.
+  specialize (IH (i + 4) d4). unfold bind, ret in IH. rewrite IH.
+  rewrite (map_ext (fun j => i + S j * 4) (fun j => i + 4 + j * 4)) by (intro; lia).
+  destruct (mapM (dcd_group l1 l2) _ d4); reflexivity.
+Qed.
+
+Lemma dcd_equiv l1 l2 k (body : nat -> list ind -> M (list ind)) :
+  (forall i acc d, body i acc d = (g <- dcd_group l1 l2 i ;; ret (acc ++ g)) d) ->
+  forall ds, (chosen <- for_each (range_step 0 k 4) body [] ;; ret chosen) ds = dcd_loop ((k + 3) / 4) 0 l1 l2 ds.
+Proof.
+  intros Hb ds. rewrite bind_ret_r.
+  rewrite (for_each_collect _ body (dcd_group l1 l2) (fun g => g) (fun i acc d _ => Hb i acc d)).
+  rewrite dcd_loop_groups. unfold range_step. rewrite Nat.sub_0_r. reflexivity.
+Qed.
+
+(* the pair rule, whatever the order of the tests in the source as long as the decisions agree *)
+Ltac tourn_rule :=
+  unfold tourn, bind, ret;
+  repeat (cbv beta zeta;
+          match goal with
+          | |- ?x = ?x => reflexivity
+          | |- context [if ?c then _ else _] => destruct c eqn:?
+          | |- context [match random01 ?d with Ok _ _ => _ | Raise _ => _ | Mismatch => _ end] => destruct (random01 d)
+          end); try congruence.
+
+(* the inlined pair function applied to a draw list is the model's tourn on the two individuals it
+   mentions, in one of the two orders *)
+Ltac fold_tourn c X Y d :=
+  let E := fresh "E" in
+  lazymatch c with
+  | dominates ?a ?b =>
+      first [ assert (E : (if c then X else Y) d = tourn a b d) by tourn_rule
+            | assert (E : (if c then X else Y) d = tourn b a d) by tourn_rule ]
+  | cd_lt (cd ?a) (cd ?b) =>
+      first [ assert (E : (if c then X else Y) d = tourn a b d) by tourn_rule
+            | assert (E : (if c then X else Y) d = tourn b a d) by tourn_rule ]
+  end; rewrite E; clear E.
+
+(* one group of the generated loop body *)
+Ltac dcd_body :=
+  unfold dcd_group, tourn_at, index, bind, raise; unfold ret at 1;
+  repeat (cbv beta zeta;
+          match goal with
+          | |- ?x = ?x => reflexivity
+          | |- context [match nth_error ?l ?j with Some _ => _ | None => _ end] => destruct (nth_error l j)
+          | |- context [match ret ?x ?d with Ok _ _ => _ | Raise _ => _ | Mismatch => _ end] => unfold ret at 1
+          | |- context [match (if ?c then ?X else ?Y) ?d with Ok _ _ => _ | Raise _ => _ | Mismatch => _ end] =>
+              fold_tourn c X Y d
+          | |- context [match tourn ?a ?b ?d with Ok _ _ => _ | Raise _ => _ | Mismatch => _ end] =>
+              destruct (tourn a b d)
+          end); unfold ret; rewrite <- ?app_assoc; try reflexivity.
+
+Lemma gen_selTournamentDCD_eq inds k ds : gen_selTournamentDCD inds k ds = selTournamentDCD inds k ds.
+Proof.
+  first [ reflexivity
+        | unfold gen_selTournamentDCD, selTournamentDCD; cbv beta zeta;
+          destruct (Nat.ltb (length inds) k); [reflexivity|];
+          destruct (Nat.eqb k (length inds) && negb (Nat.eqb (k mod 4) 0)); [reflexivity|];
+          apply bind_ext; intros l1 d1; apply bind_ext; intros l2 d2;
+          apply dcd_equiv; intros i acc d; dcd_body ].
+Qed.
